@@ -869,6 +869,7 @@ impl<'i, I: Interner> DisplayUnsat<'i, I> {
                             .display_merged_solvables(&merged.ids)
                             .to_string()
                     } else if let Some(solvable_id) = solvable_id.solvable() {
+                        reported.insert(solvable_id.into());
                         self.interner
                             .display_merged_solvables(&[solvable_id])
                             .to_string()
